@@ -5,6 +5,8 @@ CONSTANTS
   AllowCancel = TRUE
   AllowUserClose = TRUE
   AllowEarlyEnd = TRUE
+  MaxRenew = 1000000
+  FixRenew = TRUE
   ErrorOnce = TRUE
 INVARIANTS PrefixOfExpected ExactRowsAtEOF FragmentsConcatenate ErrorOnceThenEOF NoLeakedRegionScanner ClosedMeansNoCurrent
 CONSTRAINT HighWater
